@@ -6193,6 +6193,12 @@ write_function_instance(ostream &out, FunctionRemap *remap,
       bool is_const = true;
       CPPSimpleType *simple = nullptr;
       CPPType *unwrap = TypeManager::unwrap_const_reference(type);
+      // The array or pointer may be hiding behind a typedef ("typedef int
+      // GA[3]; void f(GA a);").
+      while (unwrap != nullptr &&
+             unwrap->get_subtype() == CPPDeclaration::ST_typedef) {
+        unwrap = TypeManager::unwrap_const_reference(unwrap->as_typedef_type()->_type);
+      }
       if (unwrap != nullptr) {
         CPPArrayType *array_type = unwrap->as_array_type();
         CPPPointerType *pointer_type = unwrap->as_pointer_type();
@@ -6222,7 +6228,7 @@ write_function_instance(ostream &out, FunctionRemap *remap,
       // Determine the format, so we can check the type of the buffer we get.
       char format_chr = 'B';
 
-      switch (simple->_type) {
+      switch (simple != nullptr ? simple->_type : CPPSimpleType::T_unknown) {
       case CPPSimpleType::T_char:
         if (simple->_flags & CPPSimpleType::F_unsigned) {
           format_chr = 'B';
@@ -6290,7 +6296,7 @@ write_function_instance(ostream &out, FunctionRemap *remap,
           << " && " << param_name << "_view.len == " << array_len;
       }
 
-      pexpr_string = "(" + simple->get_local_name(&parser) + " *)" +
+      pexpr_string = "(" + (simple != nullptr ? simple : unwrap)->get_local_name(&parser) + " *)" +
                      param_name + "_view.buf";
 
       extra_cleanup << "PyBuffer_Release(&" << param_name << "_view);\n";
@@ -7593,8 +7599,14 @@ write_getset(ostream &out, Object *obj, Property *property) {
   const InterrogateElement &ielem = property->_ielement;
 
   FunctionRemap *len_remap = nullptr;
+  if (property->_length_function != nullptr &&
+      property->_length_function->_remaps.empty()) {
+    // None of the overloads of the length function can be wrapped (the
+    // property macro may name any function at all), so neither can we wrap
+    // the sequence.
+    return;
+  }
   if (property->_length_function != nullptr) {
-    assert(!property->_length_function->_remaps.empty());
 
     // This is actually a sequence.  Wrap this with a special class.
     len_remap = property->_length_function->_remaps.front();
@@ -7620,8 +7632,12 @@ write_getset(ostream &out, Object *obj, Property *property) {
     return;
   }
 
+  if (ielem.is_sequence() && len_remap == nullptr) {
+    // A sequence without a usable length function; see above.
+    return;
+  }
+
   if (ielem.is_sequence()) {
-    assert(len_remap != nullptr);
     out <<
       "/**\n"
       " * sequence getter for property " << ielem.get_scoped_name() << "\n"
